@@ -12,7 +12,9 @@ def run(ctx, pid="C02"):
 
     finalize_proofs._patch()
     n = 0
-    for c, callees, models in K.all_simple_combine():
+    from ..contracts import groupedcombine as GC
+
+    for c, callees, models in list(K.all_simple_combine()) + list(GC.all_grouped_combine()):
         c.prefix = pid + c.prefix[3:]
         orig = P.Prims.register_defaults
 
@@ -26,5 +28,7 @@ def run(ctx, pid="C02"):
         finally:
             P.Prims.register_defaults = orig
         n += len(obs)
-    return (f" _simple_combine (reindex at the blockwise step or here x inner / final step x 1 / 2 intermediates) and _aggregate: {n} obligations: every block re-indexed to the groups found over all "
-            "blocks before combining, slot i reduced by combine function i over slot i of all blocks along the dummy axis, that axis squeezed only at the final step, the final step finalizes what the combine returned.")
+    return (f" _simple_combine (reindex at the blockwise step or here x inner / final step x 1 / 2 intermediates), _aggregate and _grouped_combine: {n} obligations: every block re-indexed to the groups found over all "
+            "blocks before combining, slot i reduced by combine function i over slot i of all blocks along the dummy axis, that axis squeezed only at the final step, the final step finalizes what the combine returned; "
+            "_grouped_combine (ordinary reductions with 1 / 2 intermediates and axes, arg-reductions with / without the counter, a single block): labels and every slot concatenated over all (re-indexed) blocks, slot i re-grouped by "
+            "those labels with combine / fill / dtype i, value-position pairs re-grouped together by one chunk_argreduce, the counter summed separately.")
